@@ -53,7 +53,7 @@ def run_cases(chk, binp, cases, pf_ok, pf):
     have = [r for r in recs if r.get("sx") and not r.get("skip")]
     outs = C.run_model("walk", [r["sx"] for r in have])
     model = {r["id"]: set(C.parse_sx(o)) for r, o in zip(have, outs)}
-    viol, tie, findings = [], [], []
+    viol, tie, findings, unused = [], [], [], []
     cov = {"places": 0, "with_value": 0, "rejected": 0, "accepted": 0, "by_container": {}, "by_descent": {}, "max_depth": 0,
            "skipped_by_heuristic": 0, "documents_first_pass_invalid": 0, "order_sensitive_documents": 0}
     for r in recs:
@@ -106,6 +106,12 @@ def run_cases(chk, binp, cases, pf_ok, pf):
             if s["judged"] == 2 and s["group"] not in dup and s["id"] not in rep and not any(m in go_msgs[s["kind"]] for m in s["msgs"]):
                 cov["skipped_by_heuristic"] += 1
                 findings.append((c, s))
+        for s in r.get("unwalked") or []:
+            if s["judged"]:
+                key = "%s of unreferenced shared %s" % (s["kind"], s["where"])
+                cov["by_container"][key] = cov["by_container"].get(key, 0) + 1
+            if s["judged"] == 2 and not any(m in go_msgs[s["kind"]] for m in s["msgs"]):
+                unused.append((c, s))
         # ... and nothing is reported for a value its schema accepts: with the schema pass and the rules satisfied, every
         # error is the report of a rejected default (or its wrapper); every warning about an example likewise
         if r.get("first_pass_valid"):
@@ -132,6 +138,11 @@ def run_cases(chk, binp, cases, pf_ok, pf):
             break
         chk.finding_or_violation(why, "the %s of %s at path %s is rejected by its schema and not reported: the path is taken for an already visited one"
                                % (s["kind"], s["where"], s["path"]), payload)
+    for c, s in unused[:1]:
+        chk.finding_or_violation("unreferenced-shared-declaration",
+                                 "the %s of the %s %s, declared under #/parameters or #/responses and referred to by no operation, is rejected by its schema and not reported"
+                                 % (s["kind"], s["where"], s["path"]),
+                                 {"case": {"doc": c["doc"], "origin": c["origin"]}, "place": {k: s[k] for k in ("kind", "where", "via", "path", "msgs")}})
     for c, what, detail in viol[:3]:
         chk.violation(what, {"case": {"doc": c["doc"], "origin": c["origin"]}, "detail": detail})
     if not viol:
